@@ -33,6 +33,10 @@ type VPLSNLRI struct {
 	LabelBlockBase uint32
 
 	rd RouteDistinguisherInterface
+	// bgpAD holds the 12 octets (RD + VSI-ID) of a BGP-AD NLRI [RFC 6074
+	// Section 3.1.1]. It is not interpreted, but it keeps its own length
+	// and is handed on unchanged.
+	bgpAD []byte
 }
 
 func (n *VPLSNLRI) decodeFromBytes(data []byte, options ...*MarshallingOption) error {
@@ -55,11 +59,13 @@ func (n *VPLSNLRI) decodeFromBytes(data []byte, options ...*MarshallingOption) e
 		return NewMessageError(BGP_ERROR_UPDATE_MESSAGE_ERROR, BGP_ERROR_SUB_MALFORMED_ATTRIBUTE_LIST, nil, "Not all VPLS NLRI bytes available")
 	}
 	if length == 12 { // BGP-AD
-		// BGP-AD is not supported yet
+		// BGP-AD is not supported yet: kept opaque
+		n.rd = GetRouteDistinguisher(data[2:10])
+		n.bgpAD = append([]byte(nil), data[2:14]...)
 		return nil
 	}
-	if len(data) < 19 {
-		return NewMessageError(BGP_ERROR_UPDATE_MESSAGE_ERROR, BGP_ERROR_SUB_MALFORMED_ATTRIBUTE_LIST, nil, "Not all VPLS NLRI bytes available")
+	if length != 17 {
+		return NewMessageError(BGP_ERROR_UPDATE_MESSAGE_ERROR, BGP_ERROR_SUB_MALFORMED_ATTRIBUTE_LIST, nil, "VPLS NLRI length is neither 17 (VPLS-BGP) nor 12 (BGP-AD)")
 	}
 	// VPLS-BGP
 	n.rd = GetRouteDistinguisher(data[2:10])
@@ -74,6 +80,12 @@ func (n *VPLSNLRI) decodeFromBytes(data []byte, options ...*MarshallingOption) e
 }
 
 func (n *VPLSNLRI) Serialize(options ...*MarshallingOption) ([]byte, error) {
+	if n.bgpAD != nil {
+		return append([]byte{0, 12}, n.bgpAD...), nil
+	}
+	if n.rd == nil {
+		return nil, fmt.Errorf("VPLS NLRI without route distinguisher")
+	}
 	buf := make([]byte, 16)
 	labelBaseBuf := make([]byte, 3)
 
@@ -97,10 +109,17 @@ func (n *VPLSNLRI) Serialize(options ...*MarshallingOption) ([]byte, error) {
 func (n *VPLSNLRI) Len(options ...*MarshallingOption) int {
 	// Length (2) + Route Distinguisher (8) + VE ID (2) + VE Block Offset (2)
 	// + VE Block Size (2) + Label Block Base (3)
+	if n.bgpAD != nil {
+		// Length (2) + Route Distinguisher (8) + VSI-ID (4)
+		return 14
+	}
 	return 19
 }
 
 func (n *VPLSNLRI) String() string {
+	if n.bgpAD != nil {
+		return fmt.Sprintf("%s:BGP-AD VSI-ID %d", n.rd, binary.BigEndian.Uint32(n.bgpAD[8:12]))
+	}
 	return fmt.Sprintf("%s:%d:%d (Block Size: %d, Label Block Base: %d)", n.rd, n.VEID, n.VEBlockOffset, n.VEBlockSize, n.LabelBlockBase)
 }
 
